@@ -146,3 +146,26 @@ def install(sigma: str) -> None:
         return self[i:j]
 
     cls.strip = strip
+
+
+def install_translate() -> None:
+    """str.translate on a symbolic string with a *concrete* table (dict int -> int | str | None): per character, the table
+    entry when the character equals one of the table's keys, else the character itself.  Exact for dict tables."""
+    try:
+        from crosshair.libimpl import builtinslib as bl
+    except ImportError:
+        return
+
+    def translate(self, table):
+        items = list(table.items())
+        out = ""
+        for ch in self:
+            rep = ch
+            for k, v in items:
+                if ch == chr(k):
+                    rep = "" if v is None else (chr(v) if isinstance(v, int) else v)
+                    break
+            out = out + rep
+        return out
+
+    bl.AnySymbolicStr.translate = translate
